@@ -34,7 +34,7 @@ PATHS = ["/a", "/a/{id}", "/users", "/users/{user_id}/items", "/", "/a-b/c.d", "
 TAG_FAMILIES = [["Users", "users", "USERS", "user-s", "Users_"],
                 ["DataSources", "data_sources", "data-sources", "datasources", "Data Sources", "dataSources"],
                 ["x"], ["type"], ["1st"], ["admin.ops", "AdminOps", "admin_ops"], ["default", "Default"]]
-ODD_TAGS = ["-", "", "café", "caf", "日本", "中国"]
+ODD_TAGS = ["-", "", "unnamed", "café", "caf", "日本", "中国"]
 # response-key shapes: explicit codes, `default`, and the OpenAPI range keys 2XX/4XX/5XX, alone and mixed
 RESP_KEYSETS = [["200"], ["200", "404"], ["201", "default"], ["default"], ["2XX"], ["2XX", "4XX"], ["200", "5XX", "default"],
                 ["4XX", "default"], ["204", "4XX", "5XX"], ["2XX", "default"]]
@@ -306,11 +306,17 @@ def oracle(case: dict, obs: dict) -> list[str]:
     if len(props) != len(groups):
         fails.append(f"{len(groups)} tags in the document but {len(props)} tag properties on APIClient")
     by_file = {(m, c): defs for m, c, defs in obs["files"]}
-    for k, members in groups.items():
+
+    def matches(k: str) -> list:
         # a property is the tag's if its name normalises to the tag, or to the tag without its non-ASCII characters
         # (sanitize_module_name drops them: tag 'café' is served by property `caf`)
         k_ascii = "".join(ch for ch in k if ch.isascii())
-        cand = [x for x in props if norm_tag(x[0]) == k or (k_ascii and norm_tag(x[0]) == k_ascii)]
+        return [x for x in props if norm_tag(x[0]) == k or (k_ascii and norm_tag(x[0]) == k_ascii)]
+    claimed = [x[0] for k in groups if k for x in matches(k)]
+    for k, members in groups.items():
+        # a tag without any alphanumeric character ('-', '') has no name to look for: its client must be the one
+        # property that no named tag accounts for
+        cand = matches(k) if k else [x for x in props if x[0] not in claimed]
         if len(cand) != 1:
             fails.append(f"tag {k!r}: {len(cand)} matching properties on APIClient (expected exactly one)")
             continue
@@ -490,7 +496,7 @@ def enum_small() -> list[dict]:
 
 # ---------------------------------------------------------------- entry
 # bit 1 = dedup_total (model bound of the suffix search; F07a is fixed), bit 2 = no operation skipped
-GUARDS = {2: "F07f", 4: "F07d", 5: "F07e"}   # bit 3 was F07c (fixed)
+GUARDS = {2: "F07f", 5: "F07e"}   # bit 3 was F07c, bit 4 was F07d (both fixed; bit 4 still = every tag attribute is an identifier)
 
 
 def main(chk: Check, replay: dict | None = None) -> int:
